@@ -113,8 +113,17 @@ def pdo_category(rng, pdos, base, smno):
     return data
 
 
-def gen_case(rng, kind, size="normal"):
-    """kind: 'plain' (no SM/PDO categories), 'eeprom' (PDO layout from the EEPROM), 'sdo'"""
+# header words at the edges of their range: type 0 (NOP), 1, around the vendor-specific bit, the
+# largest type below the end marker, and types whose bytes look like erased / blank cells
+BOUNDARY_TYPES = [0, 1, 0x00ff, 0xff00, 0x7fff, 0x8000, 0xfffe]
+BOUNDARY_WORDS = [0, 1, 2]
+BOUNDARY_POS = ["first", "middle", "last"]
+
+
+def gen_case(rng, kind, size="normal", inject=None):
+    """kind: 'plain' (no SM/PDO categories), 'eeprom' (PDO layout from the EEPROM), 'sdo'.
+    inject = (type, words, position, fill): one more category with exactly this header is put
+    first / in the middle / last in the category list (body bytes: fill, or random if None)"""
     maxw = {"small": 6, "normal": 24, "large": 60}[size]
     head = bytearray(rng.randrange(256) for _ in range(128))
     if rng.random() < 0.15:   # identity fields with extreme bytes
@@ -125,9 +134,9 @@ def gen_case(rng, kind, size="normal"):
     types = set()
     for _ in range(rng.choice([0, 1, 2, 3, 4, 6] if size != "small" else [0, 1, 2])):
         while True:
-            t = rng.choice([10, 30, 40, 60, rng.randrange(1, 0xffff), rng.randrange(1, 0xffff),
-                            0x8000 | rng.randrange(0x7fff), 0xfffe, 1])
-            if t not in RESERVED and t not in types:
+            t = rng.choice([10, 30, 40, 60, rng.randrange(0, 0xffff), rng.randrange(0, 0xffff),
+                            0x8000 | rng.randrange(0x7fff), rng.choice(BOUNDARY_TYPES)])
+            if t not in RESERVED and t not in types and (inject is None or t != inject[0]):
                 break
         types.add(t)
         nw = rng.choice([0, 1, 2, 3, rng.randrange(maxw + 1), rng.randrange(maxw + 1)])
@@ -166,13 +175,19 @@ def gen_case(rng, kind, size="normal"):
             if inp or rng.random() < 0.5:
                 cats.append((50, pdo_category(rng, inp, 0x1a00, smi)))
     rng.shuffle(cats)
+    if inject is not None:
+        t, nw, where, fill = inject
+        body = bytes(rng.randrange(256) if fill is None else fill for _ in range(2 * nw))
+        at = {"first": 0, "middle": (len(cats) + 1) // 2, "last": len(cats)}[where]
+        cats.insert(at, (t, body))
     img = bytes(head)
     for t, body in cats:
         img += struct.pack("<HH", t, len(body) // 2) + body
     img += b"\xff\xff"
     img += bytes(rng.randrange(256) for _ in range(rng.choice([0, 0, 2, 6, 8, 14, 30])))
     case = dict(image=list(img), source="sdo" if kind == "sdo" else "eeprom", kind=kind,
-                ncat=len(cats), modes=modes)
+                ncat=len(cats), modes=modes, cat_types=[t for t, _ in cats],
+                cat_words=[len(b) // 2 for _, b in cats])
     if od is not None:
         case["od"] = od
         case["od_zero"] = od_zero
@@ -501,10 +516,29 @@ def build_cases(ctx):
             c = gen_case(rng, kind, size)
             c["gen"] = f"{tag}/{i}"
             cases.append(c)
+    # category headers with boundary values, systematically: every boundary type x length 0/1/2
+    # words x first/middle/last place in the list, in front of / between / behind the sync-manager
+    # and PDO categories (body random, all 0x00 or all 0xFF in turn)
+    n = 0
+    for t in BOUNDARY_TYPES:
+        for nw in BOUNDARY_WORDS:
+            for where in BOUNDARY_POS:
+                rng = random.Random(f"C17/boundary/{t}/{nw}/{where}")
+                c = gen_case(rng, "eeprom", "small" if q else rng.choice(["small", "normal"]),
+                             inject=(t, nw, where, [None, 0, 255][n % 3]))
+                c["gen"] = f"boundary/{t:#x}/{nw}w/{where}"
+                c["inject"] = [t, nw, where]
+                c["nscripts"] = 2 if q else 4
+                cases.append(c)
+                n += 1
     nextra = 12 if q else 120
     for i in range(nextra):
         kind = ctx.rng.choice(["plain", "eeprom", "eeprom", "eeprom", "sdo"])
-        c = gen_case(ctx.rng, kind, ctx.rng.choice(["small", "normal", "normal", "large"]))
+        inj = None
+        if ctx.rng.random() < 0.3:
+            inj = (ctx.rng.choice(BOUNDARY_TYPES), ctx.rng.choice(BOUNDARY_WORDS),
+                   ctx.rng.choice(BOUNDARY_POS), ctx.rng.choice([None, 0, 255]))
+        c = gen_case(ctx.rng, kind, ctx.rng.choice(["small", "normal", "normal", "large"]), inject=inj)
         c["gen"] = f"extra/{ctx.seed}/{i}"
         cases.append(c)
     return cases
@@ -606,13 +640,18 @@ def run(ctx):
     # 3. images x scripts on the real code
     cases = build_cases(ctx)
     per_image = 6 if q else 8
+    by_width = {w: [s for s in scripts if s["cap8"] == w] for w in (True, False)}
     k = 0
     for ci, c in enumerate(cases):
         rr = random.Random(f"C17/raw/{c['gen']}")
         c["runs"] = []
         c["scripts"] = []
-        for j in range(per_image):
-            s = scripts[k % len(scripts)]
+        for j in range(c.get("nscripts", per_image)):
+            if "nscripts" in c:     # few scripts per image: alternate 8- and 4-byte interfaces
+                pool = by_width[j % 2 == 0]
+                s = pool[(k // 2) % len(pool)]
+            else:
+                s = scripts[k % len(scripts)]
             k += 1
             c["scripts"].append(s)
             # two of three runs call the three methods directly, the third goes through the real
@@ -649,7 +688,8 @@ def run(ctx):
                     dict(gen=c["gen"], kind=c["kind"], source=c["source"], image=c["image"],
                          od=c.get("od"), od_zero=c.get("od_zero"), modes=c["modes"], script=s,
                          failed=bad, mode=r["mode"], apply=r.get("apply"),
-                         image_len=len(c["image"]), ncat=c["ncat"],
+                         image_len=len(c["image"]), ncat=c["ncat"], cat_types=c["cat_types"],
+                         cat_words=c["cat_words"], inject=c.get("inject"),
                          eeprom_status=r["eeprom"]["status"], sm_status=r["sm"]["status"],
                          pdos_status=r["pdos"]["status"],
                          exc=[r[p].get("exc") for p in ("eeprom", "sm", "pdos") if r[p].get("exc")],
